@@ -134,9 +134,16 @@ class Snapshot(object):
     def __init__(self, objects):
         self.objects = list(objects)            # [(name, obj)] keeps everything alive
         self.state = []
+        self.sigs = []          # (owner name, attribute, signature object, deep state)
         for name, o in self.objects:
             d = _own_dict(o)
             self.state.append((name, o, dict(d)))   # values kept alive too
+            for k, v in d.items():
+                if isinstance(v, inspect.Signature):
+                    try:
+                        self.sigs.append((name, str(k), v, sig_state(v)))
+                    except Exception:
+                        pass
 
     def names(self):
         return dict((id(o), n) for n, o in self.objects)
@@ -153,6 +160,13 @@ class Snapshot(object):
                     out.append((name, str(k), 'added'))
                 elif now[k] is not before[k]:
                     out.append((name, str(k), 'replaced'))
+        for name, k, sig, st in self.sigs:
+            try:
+                c = sig_changed(sig, st)
+            except Exception as e:
+                c = 'unreadable ({0})'.format(type(e).__name__)
+            if c:
+                out.append((name, k, 'stored signature object modified: ' + c))
         return out
 
     def fingerprint(self):
@@ -162,6 +176,87 @@ class Snapshot(object):
             now = _own_dict(o)
             fp.append(tuple(sorted((str(k), id(v)) for k, v in now.items())))
         return tuple(fp)
+
+
+# ---------------------------------------------------------------------------
+# deep identity state of signature objects
+
+def sig_state(sig):
+    """Deep view of a signature; holds every object so identities stay valid."""
+    params = tuple(sig.parameters.values())
+    pv = []
+    for p in params:
+        ps = getattr(p, 'sources', None)
+        pd = getattr(p, 'source_depths', None)
+        pv.append((p, p.name, p.kind, p.default, p.annotation,
+                   ps, tuple(ps) if isinstance(ps, list) else None,
+                   pd, tuple(sorted(((id(k), v) for k, v in pd.items()))) if isinstance(pd, dict) else None,
+                   getattr(p, 'upgraded_annotation', None)))
+    src = getattr(sig, 'sources', None)
+    if not isinstance(src, dict):
+        src = {}
+        has_src = False
+    else:
+        has_src = True
+    lists = {}
+    for k, v in src.items():
+        if k == '+depths':
+            continue
+        lists[k] = (v, tuple(v))
+    depths = src.get('+depths')
+    return dict(has_src=has_src, params=params, pv=pv, src=src, keys=tuple(src.keys()), lists=lists,
+                depths=depths, depth_items=tuple(depths.items()) if depths is not None else None,
+                ret=sig.return_annotation, uret=getattr(sig, 'upgraded_return_annotation', None))
+
+
+def _same(a, b):
+    return len(a) == len(b) and all(x is y for x, y in zip(a, b))
+
+
+def sig_changed(sig, st):
+    """Describe how sig differs from its state, or None."""
+    params = tuple(sig.parameters.values())
+    if not _same(params, st['params']):
+        return 'parameter tuple changed'
+    for p, (p0, name, kind, default, annotation, ps, psv, pd, pdv, ua) in zip(params, st['pv']):
+        if p.name != name or p.kind != kind or p.default is not default or p.annotation is not annotation:
+            return 'parameter {0} fields changed'.format(name)
+        if getattr(p, 'sources', None) is not ps:
+            return 'parameter {0}.sources replaced'.format(name)
+        if isinstance(ps, list) and not _same(tuple(ps), psv):
+            return 'parameter {0}.sources list mutated'.format(name)
+        if getattr(p, 'source_depths', None) is not pd:
+            return 'parameter {0}.source_depths replaced'.format(name)
+        if isinstance(pd, dict) and tuple(sorted(((id(k), v) for k, v in pd.items()))) != pdv:
+            return 'parameter {0}.source_depths mutated'.format(name)
+        if getattr(p, 'upgraded_annotation', None) is not ua:
+            return 'parameter {0}.upgraded_annotation replaced'.format(name)
+    if not st['has_src']:
+        if isinstance(getattr(sig, 'sources', None), dict) and sig.sources:
+            return 'sources map appeared'
+        return None
+    if sig.sources is not st['src']:
+        return 'sources map replaced'
+    if tuple(sig.sources.keys()) != st['keys']:
+        return 'sources map keys changed'
+    for k, (lst, content) in st['lists'].items():
+        if sig.sources[k] is not lst:
+            return 'sources list replaced'
+        if not _same(tuple(lst), content):
+            return 'sources list mutated'
+    if sig.sources.get('+depths') is not st['depths']:
+        return '+depths replaced'
+    if st['depths'] is not None:
+        items = tuple(st['depths'].items())
+        if len(items) != len(st['depth_items']) or any(
+                a[0] is not b[0] or a[1] != b[1] for a, b in zip(items, st['depth_items'])):
+            return '+depths mutated'
+    if sig.return_annotation is not st['ret']:
+        return 'return annotation changed'
+    if getattr(sig, 'upgraded_return_annotation', None) is not st['uret']:
+        return 'upgraded return annotation changed'
+    return None
+
 
 
 # ---------------------------------------------------------------------------
